@@ -82,7 +82,9 @@ def main():
         import multiprocessing as mp
         from concurrent.futures import ProcessPoolExecutor
         ctx = mp.get_context("spawn")
-        with ProcessPoolExecutor(max_workers=jobs, mp_context=ctx) as ex:
+        # one fresh process per shard: NUMBA_NUM_THREADS is fixed once numba has launched its threads, and no state
+        # (numba thread pools, caches inside the library under test) may leak from one shard into another
+        with ProcessPoolExecutor(max_workers=jobs, mp_context=ctx, max_tasks_per_child=1) as ex:
             # heavy shards first
             order = sorted(range(len(shards)), key=lambda i: -shards[i].get("weight", 1))
             futs = {i: ex.submit(_run_shard, (modname, shards[i], tier, seed)) for i in order}
